@@ -56,6 +56,7 @@ typedef struct CO_SYNC_T {
     struct CO_TPDO_T *TPdo[CO_TPDO_N];  /*!< Pointer to synchronous TPDO     */
     uint8_t           TNum[CO_TPDO_N];  /*!< SYNCs until PDO shall be sent   */
     uint8_t           TSync[CO_TPDO_N]; /*!< SYNC time when tx must occur    */
+    uint8_t           RNew[CO_RPDO_N];  /*!< RPDO received since last SYNC    */
 
 } CO_SYNC;
 
